@@ -27,6 +27,7 @@ func init() {
 			"R4 the walk loops hand the decoder b[n:] of the enclosing container (no longer slice), so R2's bound is the container's; " +
 			"R5 a walk loop is left only through an error return or on the edge where the cursor has reached the end of the container, so no trailing bytes are skipped; " +
 			"R6 in every function of the decode family the error edge of a nested decoding step (payload decoder, group walk, AVP decoder) never reaches a return with a nil error. " +
+			"R6 an error returned by a nested decoding step (the AVP decoder, the grouped decoder, datatype.Decode) reaches the caller as an error: no nil-error return is reachable from its error edge, so a malformed member cannot be skipped silently. The decoder rules R2/R3 are decided on a symbolic model of the decoder (cursor and limits as affine forms over the wire Length and the input length, alternatives tagged by the V-flag predicate), so they hold across helper functions. " +
 			"Given R1–R4 the framing is a function of the Length fields by construction. Not decided: comparison with a reference framer as executed behaviour.",
 		Rules: map[string]string{
 			"R1": "walk-loop stride: only origin is the decoded AVP's Length, equals round-up-4(Length) for all residues",
